@@ -161,6 +161,7 @@ Local Open Scope N_scope.
 Theorem C09_stream_secret_is_sealed :
   forall (s : stream) (d : bytes) (s' : stream) (e : N) (fs : list frame) (k : bytes),
     key s = Some k -> enc_ctr s <= CounterGuard ->
+    before_secret s = false ->     (* not inside another secret section: prepare/restore calls are paired *)
     run_sop s (OSecret d) = (s', e, fs) ->
     encrypted s' = encrypted s /\
     (e = 0 -> exists f ivo a, fs = [f] /\ f_body f = Ct ivo (seal k (nonce_of (enc_iv s) (enc_ctr s)) a (d ++ [x00]))) /\
